@@ -77,8 +77,12 @@ class OptionalPassthrough(_SeriesToSeriesTransformer):
 
     def fit(self, Z, X=None):
         if not self.passthrough:
-            self.transformer_ = clone(self.transformer)
-            self.transformer_.fit(Z, X)
+            # replace the fitted transformer of an earlier fit only once the new one
+            # is fitted: if this fit raises, the object must not be left reporting
+            # is_fitted with an unfitted transformer_
+            transformer = clone(self.transformer)
+            transformer.fit(Z, X)
+            self.transformer_ = transformer
         self._is_fitted = True
         return self
 
